@@ -46,6 +46,8 @@ TraceClauses(t) ==
     \cup (IF Len(t.files) = a.numinst THEN {} ELSE {"file_count"})
     \cup (IF t.listing = [i \in 1 .. a.numinst |-> i - 1] THEN {} ELSE {"file_names"})
     \cup UNION {FileClauses(a, t.files[i]) : i \in DOMAIN t.files}
+    \* growth: the parameter block (lexically parsed by the harness into <<key, <<num, den>>>>) echoes the arguments
+    \cup (IF \A i \in DOMAIN t.blocks : t.blocks[i] = BlockExpected(a) THEN {} ELSE {"param_block_echo"})
 
 LensOfFile(a, text) ==
     LET na == IF a.mp = "spa" THEN 3 ELSE 2 IN
